@@ -3,11 +3,12 @@
 # apply patch.diff to /repo's working tree (never committed), run the quick check
 # of the property in the id (plus any listed in meta.json "confirmed"), restore.
 # Prints one line per seeded change; exit 0 iff every change is caught by at least one check.
+V=$(cd "$(dirname "$0")/.." && pwd)
 cd /repo || exit 2
 [ -z "$(git status --porcelain)" ] || { echo "/repo not clean"; exit 2; }
 trap 'cd /repo && git checkout -- . && git clean -fdq -- . >/dev/null 2>&1' EXIT
 missed=0
-for d in /verif/seeded/*/; do
+for d in $V/seeded/*/; do
   id=$(basename "$d"); [ -n "$1" ] && [[ "$id" != $1* ]] && continue
   if grep -q '"retired"' "$d/meta.json"; then echo "$id: retired (see meta.json)"; continue; fi
   props=$(python3 -c "
@@ -18,7 +19,7 @@ print(' '.join(ps) or '$id'.split('-')[0])")
   git apply "$d/patch.diff" 2>/dev/null || { echo "$id: patch no longer applies"; missed=$((missed+1)); continue; }
   caught=""
   for p in $props; do
-    (cd /verif && ./check run $p quick >/tmp/sm.out 2>&1); rc=$?
+    (cd $V && ./check run $p quick >/tmp/sm.out 2>&1); rc=$?
     [ $rc -eq 1 ] && caught="$caught $p"
   done
   git checkout -- . ; git clean -fdq -- . >/dev/null 2>&1
